@@ -805,6 +805,13 @@ def persist_script(rng, w):
         else:
             steps.append(lambda r, wd, t2=t2: {"op": "set_params", "alg": t2, "params": None})
             steps.append(lambda r, wd, t2=t2: {"op": "run", "setup": si, "name": nm(t2)})
+    if rng.random() < 0.45:
+        # a second generation on the SAME path: what is loaded must be what was saved last, not what was there before
+        if rng.random() < 0.5:
+            steps.append(lambda r, wd: {"op": "restart", "setup": si, "path": f"sim:/s{si}_a.pkl"})
+        else:
+            steps.append(lambda r, wd: {"op": "save", "setup": si, "path": f"sim:/s{si}_a.pkl"})
+            steps.append(lambda r, wd: {"op": "load_check", "path": f"sim:/s{si}_a.pkl"})
     return steps
 
 
